@@ -212,7 +212,7 @@ Definition model_traces : list (string * list string) := [
      ++ rg HXattrwalk 0
      ++ ["if:len(t.Name) > 0"; "call:ref.file.GetXattr(t.Name)"; "else"; "call:ref.file.ListXattrs()"; "if:err == nil"; "endif"; "endif"; "if:err != nil"; "return:err"; "endif"; "if:uint32(len(buf)) > maximumLength"; "return:EINVAL"; "endif"; "incref:ref"; "insert:t.newFID:newRef"; "return:nil"; "endwrap"; "if:err != nil"; "return:err"; "endif"; "return:&rxattrwalk"])%list);
   ("walkOne",
-     (["if:nwname > 1"; "return:nil,nil,AttrMask,Attr,EINVAL"; "endif"; "switch:"; "case:getattr"; "call:from.WalkGetAttr(names)"; "if:!errors.Is(err, linux.ENOSYS)"; "branch:break"; "endif"; "branch:fallthrough"; "default"; "call:from.Walk(names)"; "if:err != nil"; "branch:break"; "endif"; "if:getattr"; "if:nwname == 1"; "tree:fromNode.pathNodeFor(names[0])"; "lock:childNode.opMu.RLock"; "call:sf.GetAttr(AttrMaskAll)"; "lock:childNode.opMu.RUnlock"; "else"; "call:sf.GetAttr(AttrMaskAll)"; "endif"; "if:err != nil"; "call:sf.Close()"; "endif"; "endif"; "endswitch"; "if:err != nil"; "return:nil,nil,AttrMask,Attr,err"; "endif"; "if:nwname == 1 && len(localQIDs) != 1"; "call:sf.Close()"; "return:nil,nil,AttrMask,Attr,EINVAL"; "endif"; "return:append(qids, localQIDs...),sf,valid,attr,nil"])%list)
+     (["if:nwname > 1"; "return:nil,nil,AttrMask,Attr,EINVAL"; "endif"; "switch:"; "case:getattr"; "call:from.WalkGetAttr(names)"; "if:!errors.Is(err, linux.ENOSYS)"; "branch:break"; "endif"; "branch:fallthrough"; "default"; "call:from.Walk(names)"; "if:err != nil"; "branch:break"; "endif"; "if:getattr"; "if:nwname == 1"; "tree:fromNode.pathNodeFor(names[0])"; "block{"; "lock:childNode.opMu.RLock"; "defer:childNode.opMu.RUnlock"; "call:sf.GetAttr(AttrMaskAll)"; "}block"; "else"; "call:sf.GetAttr(AttrMaskAll)"; "endif"; "if:err != nil"; "call:sf.Close()"; "endif"; "endif"; "endswitch"; "if:err != nil"; "return:nil,nil,AttrMask,Attr,err"; "endif"; "if:nwname == 1 && len(localQIDs) != 1"; "call:sf.Close()"; "return:nil,nil,AttrMask,Attr,EINVAL"; "endif"; "return:append(qids, localQIDs...),sf,valid,attr,nil"])%list)
 ].
 
 (** ---- checks on the generated tables ---- *)
@@ -296,3 +296,46 @@ Definition field_checked (m f : string) : bool :=
 
 Definition all_fields_checked : bool :=
   forallb (fun e => forallb (field_checked (fst e)) (snd e)) tmsg_string_fields.
+
+(** ---- C15: every lock of the request path is released by defer, or no call that may fail sits
+    between Lock and Unlock.  The table go2coq reads from handlers.go / path_tree.go / server.go must
+    be this one; connState.handleRequest's receive/send locks are C06's (listed, not judged here). ---- *)
+Definition lock_sites_expected : list (string * string * string) := [
+  ("connState.ClearTag", "cs.tagMu.Lock", "deferred");
+  ("connState.DeleteFID", "cs.fidMu.Lock", "explicit");
+  ("connState.InsertFID", "cs.fidMu.Lock", "explicit-with-calls:newRef.IncRef");
+  ("connState.LookupFID", "cs.fidMu.Lock", "deferred");
+  ("connState.StartTag", "cs.tagMu.Lock", "deferred");
+  ("connState.TagDone", "cs.tagMu.Lock", "deferred");
+  ("connState.handleRequest", "cs.sendMu.Lock", "explicit-with-calls:send");
+  ("connState.handleRequest", "cs.sendMu.Lock", "explicit-with-calls:send,newErr");
+  ("connState.handleRequest", "cs.recvMu.Lock", "explicit-with-calls:atomic.AddInt32,atomic.LoadUint32,recv,cs.server.log.Printf,cs.StartTag,cs.TagDone,atomic.LoadInt32,cs.pendingWg.Add,func-literal,cs.pendingWg.Done,cs.handleRequests");
+  ("fidRef.safelyGlobal", "f.server.renameMu.Lock", "deferred");
+  ("fidRef.safelyRead", "f.server.renameMu.RLock", "deferred");
+  ("fidRef.safelyRead", "f.pathNode.opMu.RLock", "deferred");
+  ("fidRef.safelyWrite", "f.server.renameMu.RLock", "deferred");
+  ("fidRef.safelyWrite", "f.pathNode.opMu.Lock", "deferred");
+  ("pathNode.addChild", "p.childMu.Lock", "explicit-with-calls:p.addChildLocked");
+  ("pathNode.addPathNodeFor", "p.childMu.Lock", "explicit");
+  ("pathNode.forEachChildNode", "p.childMu.RLock", "deferred");
+  ("pathNode.forEachChildRef", "p.childMu.RLock", "deferred");
+  ("pathNode.nameFor", "p.childMu.RLock", "explicit");
+  ("pathNode.pathNodeFor", "p.childMu.Lock", "explicit-with-calls:newPathNode");
+  ("pathNode.pathNodeFor", "p.childMu.RLock", "explicit");
+  ("pathNode.removeChild", "p.childMu.Lock", "explicit");
+  ("pathNode.removeWithName", "p.childMu.Lock", "deferred");
+  ("tlopen.handle", "ref.openMu.Lock", "deferred");
+  ("tunlinkat.handle", "childPathNode.opMu.Lock", "deferred");
+  ("walkOne", "childNode.opMu.RLock", "deferred")
+].
+
+
+(** callees tolerated between an explicit Lock and Unlock: an atomic add, a map allocation, and
+    addChildLocked (panics only on a fidRef registered twice, excluded by the path-tree invariant of C08) *)
+Definition tolerated_under_lock : list string := ["newRef.IncRef"; "newPathNode"; "p.addChildLocked"].
+
+Definition release_ok (fn rel : string) : bool :=
+  String.eqb fn "connState.handleRequest" || String.eqb rel "deferred" || String.eqb rel "explicit"
+  || existsb (fun c => String.eqb rel ("explicit-with-calls:" ++ c)) tolerated_under_lock.
+
+Definition locks_released : bool := forallb (fun e => release_ok (fst (fst e)) (snd e)) lock_sites.
